@@ -235,6 +235,7 @@ DATA_MOVE = {
     "split": [0],
     "unstack": [0],
     "stack": None,
+    "tile": [0],
     "real": [0],
     "reduce_precision": [0],
     "optimization_barrier": None,
